@@ -291,6 +291,40 @@ class Seq:
         return f"{self.bufsize} {fill:02x} {limit} " + " ".join(self.ops)
 
 
+def ptr_edge(rng):
+    """Messages longer than 16 KiB in which names sharing a suffix are written around offset 0x3fff, the largest
+    offset a compression pointer can express: a name starting just below the boundary with later labels at or
+    above it, then names (owners and RDATA names, hinted and unhinted) that share its suffix."""
+    bufsize = rng.choice([16500, 17000, 20000])
+    ops = []
+    est = 12
+    if rng.random() < 0.5:
+        q = [rng.choice([b"q", b"www"]), b"example", b"com"]
+        ops.append(f"q:{hx(wire(q))}:1:1")
+        est += len(wire(q)) + 4
+    ops.append(f"mode:{rng.choice('sssc')}")
+    suffix = rng.choice([[b"newsuffix", b"other"], [b"Example", b"COM"], [b"b", b"c"], [b"x" * rng.choice([1, 9, 30]), b"y", b"z"]])
+    first = [rng.choice([b"x", b"ns1", b"a" * 12])] + suffix
+    d = rng.randint(-3, len(wire(first)) + 3)
+    start = 0x3FFF - d                     # where the owner `first` begins
+    fill = start - est - 11
+    ops.append(f"rr:a:n:00:{T_TXT}:1:60:{hx(bytes(rng.randrange(256) for _ in range(fill)))}:0")
+    ops.append(f"rr:a:n:{hx(wire(first))}:{T_A}:1:60:7f000001:{rng.choice([0, 1])}")
+    for _ in range(rng.randint(1, 4)):
+        second = rng.choice([[b"y"] + suffix, suffix, suffix[1:], [recase(rng, l) for l in [b"y"] + suffix], first,
+                             [b"z", b"y"] + suffix])
+        second = second or [b"y"]
+        r = rng.random()
+        if r < 0.5:
+            ops.append(f"rr:a:{rng.choice('nno')}:{hx(wire(second))}:{T_A}:1:60:7f000002:0")
+        elif r < 0.8:
+            ops.append(f"rr:a:n:{hx(wire([b'o'] + suffix[-1:]))}:2:1:60:{hx(wire(second))}:{rng.choice([0, 1])}")
+        else:
+            ops.append(f"rr:a:n:{hx(wire(second))}:{T_MX}:1:60:000a{hx(wire([b'mx'] + suffix))}:0")
+    ops.append("get")
+    return f"{bufsize} 00 {bufsize} " + " ".join(ops)
+
+
 def gen(rng, tier, similar=False):
     quick = tier == "quick"
     # hand-written boundary cases
@@ -306,3 +340,5 @@ def gen(rng, tier, similar=False):
         yield Seq(rng, similar=similar).build().rstrip()
     for _ in range(12 if quick else 300):
         yield Seq(rng, big=True, similar=similar).build().rstrip()
+    for _ in range(40 if quick else 600):
+        yield ptr_edge(rng)
